@@ -1,6 +1,7 @@
 import Driver.Ops.Common
 import Driver.Ops.Curve
 import Driver.Ops.Area
+import Driver.Ops.Locate
 
 /-!
 # Driver/Main — the model behind a one-line-in, one-line-out protocol (K := Rat)
@@ -13,7 +14,7 @@ open Driver
 
 /-- the op modules, tried in order -/
 def handlers : List (String → List V → Option String) :=
-  [Driver.Ops.Curve.handle, Driver.Ops.Area.handle]
+  [Driver.Ops.Curve.handle, Driver.Ops.Area.handle, Driver.Ops.Locate.handle]
 
 def handle (op : String) (args : List V) : Option String :=
   handlers.firstM (fun h => h op args)
